@@ -13,6 +13,10 @@ def profile_for(rng, flags_off):
              hostile_content=rng.random() < 0.7, hostile_names=rng.random() < 0.3,
              crlf=rng.random() < 0.2, no_final_nl=rng.random() < 0.25, decoys=rng.random() < 0.3,
              human_ckpt_rate=rng.choice([0.0, 0.0, 0.3, 1.0]), long_lines=rng.random() < 0.2)
+    if rng.random() < 0.2:
+        # diff-syntax focus: one file, most lines start with text that looks like unified-diff syntax once git prefixes it with
+        # + or -, and the edits are mostly replacements (hunks with removed AND added lines) followed by further hunks in the same file
+        p.update(files=1, diff_syntax=True, hostile_content=True, decoys=False)
     for f in flags_off:
         p[f] = False
     return p
@@ -28,9 +32,10 @@ def run_case(case):
         rng = sc.rng
         files = sc.choose_files()
         root_ai = rng.random() < 0.15
+        diffy = bool(prof.get("diff_syntax"))
         for f in files:
-            n0 = rng.choice([0, 1, 3, 6, 12, 40])
-            sc.write(f, [sc.fresh("human", hostile=False) for _ in range(n0)])
+            n0 = rng.choice([0, 1, 3, 6, 12, 40]) if not diffy else rng.choice([12, 25, 40])
+            sc.write(f, [sc.fresh("human", hostile=diffy) for _ in range(n0)])
         if root_ai:
             # the root commit itself contains AI lines
             sc.do_edit(author=rng.choice(sc.sessions), f=files[0], kinds=["ins"])
@@ -40,8 +45,8 @@ def run_case(case):
         if root_ai:
             sc.check_commit_exact(c0, "root", rule="C01")
         for ci in range(rng.choice([1, 1, 2, 3])):
-            for _ in range(rng.randrange(1, 9)):
-                sc.do_edit()
+            for _ in range(rng.randrange(1, 9) if not diffy else rng.randrange(3, 9)):
+                sc.do_edit(kinds=["rep", "rep", "rep", "ins", "ins", "del", "mod"] if diffy else None)
             sc.commit_all("c%d" % ci)
             c = sc.head()
             sc.after_step("commit %d" % ci)
